@@ -475,3 +475,5 @@ def run(ctx):
   r3_placeholders(ctx)
   r4_constant_map(ctx)
   r5_threshold(ctx)
+  from sa.rules import shared as _shared  # pylint: disable=g-import-not-at-top
+  _shared.rule_signature_contract(ctx, 'C16.R7', large=True)
